@@ -1,10 +1,11 @@
-\* exhaustive: every sequence of 4 partial writes of a[0:n] into the 6-bit register r of a mapper, then M(r)
+\* exhaustive: every sequence of 4 partial writes of a[0:n] into the 6-bit register r of a mapper, then M(r); quick: only the low 4 bits of r are written
 CONSTANTS
   Widths = {3}
   MaxSteps = 5
   MaxW = 8
   FreshOnly = FALSE
   Ops = {"mset", "mget"}
+  MapSpan = 4
   MapSrc = {1}
   Rand = FALSE
 INIT Init
